@@ -1,0 +1,22 @@
+package risc
+
+// Probe kinds reported through VerifProbe.
+const (
+	VerifProbeFlush uint8 = iota
+	VerifProbeForward
+	VerifProbeRename
+	VerifProbeCommit
+	VerifProbeRollback
+	VerifProbeBTBHit
+	VerifProbeBTBMiss
+	VerifProbeSeqDrop
+	VerifProbeL1Evict
+	VerifProbeL3Evict
+	VerifProbeSnoopEvict
+	VerifProbeSnoopWriteBack
+	VerifProbeLockWait
+	VerifProbeCancelLocked
+	VerifProbePendingFetchWait
+	VerifProbeMSIRefresh
+	VerifProbeKinds
+)
